@@ -35,8 +35,27 @@ def build_scenario(rng, base, idx):
     t.add_file(os.path.join(root, b"a", b"s1"), small, 4)
     t.add_file(os.path.join(root, b"c", b"deep", b"er", b"s2"), small, 4)
     t.add_file(os.path.join(root, b"c", b"uniq"), treegen.content(rng.next(), 777), 5)
+    # empty files (scanned with --min 0): there is nothing to read, but a file that cannot be opened is still left out
+    t.add_file(os.path.join(root, b"a", b"e1"), b"", 6)
+    t.add_file(os.path.join(root, b"b", b"e2"), b"", 6)
+    t.add_file(os.path.join(root, b"c", b"e3"), b"", 6)
     if idx % 2 == 0:
         t.add_hardlink(os.path.join(root, b"a", b"mid1"), os.path.join(root, b"c", b"mid1_link"))
+    # several hard-linked files of one size class (location-ordered hashing on HDD-like devices must cope with links of one
+    # inode that are not adjacent after sorting, e.g. when the extent query fails for one of them)
+    for k in range(4):
+        src = os.path.join(root, b"h", b"hf%d" % k)
+        t.add_file(src, mid if k % 2 == 0 else treegen.variant(mid, 100 + k), 2 if k % 2 == 0 else 7 + k)
+        t.add_hardlink(src, os.path.join(root, b"h", b"hf%d.lnk" % k))
+    # extents must be allocated for the extent query to return physical locations
+    for d, _, fs in os.walk(root):
+        for f in fs:
+            try:
+                fd = os.open(os.path.join(d, f), os.O_RDONLY)
+                os.fsync(fd)
+                os.close(fd)
+            except OSError:
+                pass
     # links: a file link (listed with -S, transparent with -L) and a directory link to a directory OUTSIDE the scanned
     # root, whose files are reachable only through the link (scanned with -L)
     t.add_symlink(os.path.join(root, b"a", b"s1"), os.path.join(root, b"b", b"s1_sym"))
@@ -86,8 +105,10 @@ def run(ctx):
         tree = build_scenario(rng, base, ti // 2)
         roots = tree.roots
         links = ["--symbolic-links", "--follow-links", None][(ti // 2) % 3]
-        extra0 = ([links] if links else [])
-        env0 = {"FCLONES_VERIF_DISK_KIND": "ssd"}
+        extra0 = ([links] if links else []) + ["--min", "0"]
+        # the device kind decides the access strategy (HDD/unknown: extent query and location-ordered hashing)
+        disk_kind = ["hdd", "ssd", "unknown"][(ti // 2) % 3]
+        env0 = {"FCLONES_VERIF_DISK_KIND": disk_kind}
         mode = [["--rf-over", "0"], []][ti % 2]
         rc, base_groups, err = group_run(roots, extra0 + mode, env0)
         if rc != 0 or base_groups is None:
@@ -116,6 +137,10 @@ def run(ctx):
         for lp, _ in tree.symlinks:
             cases += [(lp, "readlink", 0), (lp, "stat", 0)]
         cases = rng.shuffle(cases)[:per_tree] if ctx.quick or len(cases) > per_tree else cases
+        multi = {i for i in ids.values() if list(ids.values()).count(i) > 1}
+        must = [(p, "fiemap", 0) for p in files if ids[p] in multi and disk_kind != "ssd"] + \
+               [(p, "open", 0) for p in files if os.stat(p).st_size == 0]
+        cases = must + [c for c in cases if c not in must]
         if links:
             # faults on the links themselves are never lost to sampling
             cases = [(lp, call, 0) for lp, _ in tree.symlinks for call in ("readlink", "stat")] + \
@@ -145,6 +170,15 @@ def run(ctx):
                               "fclones group exited %d / no report when %s of %s failed with %s" % (rc, call, ent.decode(), ERRNOS[eno]),
                               payload, found_input=True)
                 continue
+            if not delivered and call == "open" and nth == 0 and eno != 2 and ent in ids:
+                # every open of the entry would fail, yet fclones never tried: it must not vouch for the file's content.
+                # (only for files that are the sole path of their inode and are listed together with another file)
+                sole = list(ids.values()).count(ids[ent]) == 1
+                for g in groups or []:
+                    if sole and ent in g["files"] and len({ids.get(p) for p in g["files"]}) > 1:
+                        ctx.violation({"kind": "unopenable_file_reported_as_duplicate"},
+                                      "%s cannot be opened (%s on every open) and was never opened, but is reported as a duplicate of %s" % (
+                                          ent.decode(), ERRNOS[eno], [p.decode() for p in g["files"] if p != ent][:3]), payload, found_input=True)
             if not delivered:
                 # the fault was never triggered: the run must equal the fault-free run
                 if treegen.body_key(groups) != treegen.body_key(base_groups):
@@ -178,7 +212,7 @@ def run(ctx):
                 if not mode and sib_links:
                     exp2 = expected_groups(all_groups, ids, cls_of, None, got_files, under | sib_links)
                     k5_rest = {p for p in k5_rest if p in exp2["must_be_present"]}
-                if sib_links and (not_allowed & sib_links or not mode) and not k5_rest:
+                if call != "fiemap" and sib_links and (not_allowed & sib_links or not mode) and not k5_rest:
                     sig = {"kind": "hardlink_siblings_dropped"}
                 else:
                     sig = {"kind": "other_files_dropped", "call": call}
